@@ -127,6 +127,10 @@ package app
 //@ assigns everything
 //@ ensures [options-only-configure] Failed == old(Failed) && Refreshed == old(Refreshed) && RanLen == old(RanLen) && RanAt == old(RanAt) && RanSrc == old(RanSrc)
 
+// What initiate hands to the registry (ghost trace written by initiate only): the application itself, then one instance
+// of each built-in post-processor, in this order - none is left out.
+//@ ghost var InitRegLen int
+//@ ghost var InitRegAt map[int]any
 //@ func (*App).initiate
 //@ terminates
 //@ property C09 C13
@@ -135,6 +139,11 @@ package app
 //@ ensures [wiring-only] Failed == old(Failed) && Refreshed == old(Refreshed) && RanLen == old(RanLen) && RanAt == old(RanAt) && RanSrc == old(RanSrc)
 //@ let app = s
 //@ ensures [wired-or-error] implies(result == nil, s.Configure != nil && s.Factory != nil)
+//@ let r0 = InitRegLen
+//@ ghost before call RegisterSingleton: InitRegAt = store(InitRegAt, InitRegLen, _arg0)
+//@ ghost before call RegisterSingleton: InitRegLen = InitRegLen + 1
+//@ ensures [app-and-built-ins-registered] implies(result == nil, InitRegLen == r0 + 10 && InitRegAt[r0] == toany(s) && typeIs(InitRegAt[r0 + 1], *processors.loggerAwarePostProcessors) && typeIs(InitRegAt[r0 + 2], *processors.configQuoteAwarePostProcessors) && typeIs(InitRegAt[r0 + 3], *processors.expressionTagAwarePostProcessors) && typeIs(InitRegAt[r0 + 4], *processors.propertiesAwarePostProcessors) && typeIs(InitRegAt[r0 + 5], *processors.valueAwarePostProcessors) && typeIs(InitRegAt[r0 + 6], *processors.validateAwarePostProcessors) && typeIs(InitRegAt[r0 + 7], *processors.dependencyAwarePostProcessors) && typeIs(InitRegAt[r0 + 8], *processors.dependencyFurtherMatchingPostProcessors) && typeIs(InitRegAt[r0 + 9], *processors.dependencyFunctionAwarePostProcessors))
+//@ loop 1 invariant [registered-so-far] InitRegLen == r0 + _done && forall(k, int, implies(0 <= k && k < _done, InitRegAt[r0 + k] == _range[k]))
 //@ loop 1 invariant [wiring-only] Failed == old(Failed) && Refreshed == old(Refreshed) && RanLen == old(RanLen) && RanAt == old(RanAt) && RanSrc == old(RanSrc) && app.Configure != nil && app.Factory != nil && app.registry != nil
 
 // Run: a start-up failure anywhere (ghost Failed) makes Run return an error, and no runner is invoked unless the
